@@ -117,6 +117,15 @@ def run(ctx):
     ctx.do_prove()
     mark("regenerate+prove")
     if data is None:
+        # the tables could not be translated (the tie is broken and reported): the oracles that need no table still search
+        # for a failing input — group lists, consistency tests, malformed data, use before fit (the Lean side of their
+        # comparisons is then the model of the PREVIOUS source: a disagreement there is one more broken correspondence)
+        try:
+            X = cl.tiny_X(ctx.seed)
+            rs = np.random.RandomState(ctx.seed * PRIME + 1)
+            tail_parts(ctx, X, rs, fit_lib.estimators(), mark)
+        except core.DriverBuildError as e:
+            ctx.proof["broken"].append({"theorem": "model build", "reason": str(e)[-600:]})
         return ctx.finish()
     try:
         meta = core.run_driver("Constraints", ["universe", "keys", "dockeys", "dead", "late", "known", "unval"])
@@ -174,6 +183,11 @@ def run(ctx):
         if not ctx.counters.get(f"known-entry:{o}:{p}:{cl.value_token(v)}"):
             ctx.corr_break("knownDeviations", {"entry": [o, p, cl.value_repr(v)]}, "entry was not exercised on the real code")
     mark("sweep")
+    tail_parts(ctx, X, rs, ests, mark)
+    return ctx.finish()
+
+
+def tail_parts(ctx, X, rs, ests, mark):
     # ---------------------------------------------------------------- scalar tests, groups, data, before-fit
     grid = [(l, s) for l in range(1, 7) for s in range(2, 13)]
     scalar_outs = core.run_driver("Constraints", [f"kauri {l} {s}" for l, s in grid] + [f"mask {m} {cl.N_FEATURES}" for m in range(0, 7)])
@@ -186,7 +200,6 @@ def run(ctx):
                 + [("groups-content", groups_content, (X,)), ("precomputed", precomputed_without_affinity, (X,)),
                    ("malformed-data", malformed_data, ()), ("before-fit", before_fit, (X,))])
     mark("kauri+mask, groups, data, before-fit")
-    return ctx.finish()
 
 
 def sweep_owner(ctx, o, cases, X):
